@@ -537,16 +537,82 @@ static C05_WEIGHTS: &[(u16, u32)] = &[
     (m::REMOVE_NTH, 3),
 ];
 
+static C05_SET_WEIGHTS: &[(u16, u32)] = &[
+    (st::INSERT, 18),
+    (st::INSERT_RANGE, 5),
+    (st::REPLACE, 5),
+    (st::REMOVE, 10),
+    (st::GET_OR_INSERT, 5),
+    (st::GET_OR_INSERT_WITH, 4),
+    (st::GET, 3),
+    (st::ENTRY, 6),
+    (st::SWAP, 6),
+    (st::ALGEBRA, 6),
+    (st::PREDICATES, 3),
+    (st::OPERATORS, 5),
+    (st::ASSIGN, 10),
+    (st::EXTEND, 4),
+    (st::RETAIN, 2),
+    (st::EXTRACT_IF, 2),
+    (st::DRAIN, 2),
+    (st::CLEAR, 1),
+    (st::SHRINK_TO_FIT, 3),
+    (st::RESERVE, 3),
+    (st::ITER, 2),
+    (st::FILL_TO_CAPACITY, 3),
+    (st::REMOVE_RUN, 4),
+    (st::CLONE, 3),
+    (st::REBUILD, 1),
+];
+
+static C05_TABLE_WEIGHTS: &[(u16, u32)] = &[
+    (t::INSERT_UNIQUE, 18),
+    (t::INSERT_DUP, 2),
+    (t::FIND, 4),
+    (t::FIND_MUT, 2),
+    (t::FIND_ENTRY, 10),
+    (t::ENTRY, 12),
+    (t::RETAIN, 2),
+    (t::EXTRACT_IF, 2),
+    (t::DRAIN, 2),
+    (t::CLEAR, 1),
+    (t::RESERVE, 4),
+    (t::SHRINK_TO_FIT, 3),
+    (t::SHRINK_TO, 2),
+    (t::GET_MANY_MUT, 4),
+    (t::ITER_HASH, 3),
+    (t::ITER, 2),
+    (t::CLONE_SWAP, 2),
+    (t::FILL_TO_CAPACITY, 3),
+    (t::REMOVE_RUN, 4),
+    (t::REHASH_SETUP, 3),
+    (t::REMOVE_NTH, 4),
+];
+
 fn c05_strategy(tier: Tier) -> BoxedStrategy<Case> {
     use proptest::prelude::*;
+    let n = if tier == Tier::Quick { 100 } else { 300 };
     (
-        map_case_strategy(MapGen {
-            prop: 5,
-            weights: C05_WEIGHTS,
-            max_ops: if tier == Tier::Quick { 100 } else { 300 },
-            generic_pct: 20,
-            plain_pct: 30,
-        }),
+        // debugging aid: HBV_C05_ONLY=set|table makes almost every program one of that kind
+        {
+            let only = std::env::var("HBV_C05_ONLY").unwrap_or_default();
+            let (wm, ws, wt) = match only.as_str() {
+                "set" => (1, 200, 1),
+                "table" => (1, 1, 200),
+                _ => (6, 2, 1),
+            };
+            union2(
+                union2(
+                    map_case_strategy(MapGen { prop: 5, weights: C05_WEIGHTS, max_ops: n, generic_pct: 20, plain_pct: 30 }),
+                    wm,
+                    set_case_strategy(SetGen { prop: 5, weights: C05_SET_WEIGHTS, max_ops: n, generic_pct: 20, plain_pct: 30 }),
+                    ws,
+                ),
+                wm + ws,
+                table_case_strategy(TableGen { prop: 5, weights: C05_TABLE_WEIGHTS, max_ops: n, generic_pct: 20, plain_pct: 30 }),
+                wt,
+            )
+        },
         prop_oneof![3 => Just(1u64), 2 => Just(2u64), 2 => Just(3u64), 2 => Just(4u64), 2 => Just(5u64), 2 => Just(6u64), 2 => Just(7u64), 2 => Just(8u64)],
         1u64..48,
         0u64..1000,
@@ -568,7 +634,9 @@ fn c05_nontrivial(_c: &Case, o: &Outcome) -> bool {
 
 pub static C05: PropDef = PropDef {
     id: "C05",
-    rule: "histories over the C01 alphabet with answer tapes in the case (hash tape and eq tape consumed cyclically): \
+    rule: "histories over the C01 alphabet (also: two-HashSet programs with algebra / operators / assigning operators, and \
+           HashTable programs whose hash and eq closures take their answers from the tapes) with answer tapes in the case \
+           (hash tape and eq tape consumed cyclically): \
            modes = fresh answer every call / hash depends on call parity / equal keys with different hashes / \
            always-equal / never-equal / non-transitive equality / eq tape only / hash tape from 4 values; only the \
            safety subset is judged (structure, allocator, element ledger, len == yielded count, termination); \
